@@ -608,6 +608,8 @@ LINKFILE_CASES = [
     ("abstract before the path, a continuation line that starts like a comment", None,
      ["Name=Community", "Abstract=Where to find us:\\", "#gopher on irc\\", "or the list", "Path=./community", ""],
      {"name": "Community", "selector": "/SB/community", "needsmerge": True, "ea:ABSTRACT": "Where to find us:\n#gopher on irc\nor the list"}, "continue"),
+    ("values that contain = themselves", None, ["Name=Why E=mc2", "Path=/URL:http://example.com/find?q=x&y=z", "Abstract=a=b", ""],
+     {"name": "Why E=mc2", "selector": "/URL:http://example.com/find?q=x&y=z", "ea:ABSTRACT": "a=b"}, "continue"),
     ("unparsable number and port are ignored", None, ["Path=/q", "Numb=first", "Host=other.example", "Port=gopher", ""],
      {"selector": "/q", "host": "other.example"}, "continue"),
 ]
